@@ -27,7 +27,6 @@ Thorough tier only: "write failure is fatal" (harness/cmd/c08fatal): a child pro
 """
 import json
 import os
-import re
 
 from props import engine_common as ec
 from vf import framework as fw
@@ -68,73 +67,6 @@ NOT_COVERED = [
 
 MONS = ["mon_persist_diag", "mon_reads_diag", "mon_explained_diag"]
 INDEPENDENT = {9, 10, 11, 12, 13, 15}
-
-# ---- load disturbance: an invocation the plugin finished in time but whose answer reached the engine after the deadline ----
-# The harness logs End (and decides the outcome from ctx.Err()) just BEFORE the plugin returns; the answer then travels
-# through a channel to the engine goroutine, which selects between it and the attempt's deadline.  On a loaded machine
-# the deadline of a short-timeout action (15-25 ms, profile `attempts`) can pass between the two: the log says "ok", the
-# engine records a timeout.  Signature: End ok, then the record (Running, n, lastok=false) of that attempt at least one
-# timeout after its Start.  Such a run is re-run (fresh schedule) and excluded like a late start if it persists; the
-# same signature with LESS than one timeout elapsed is not excused.
-_GRP = ["bypass", "pre", "cont", "post", "deferred"]
-_EV = re.compile(r"^#\d+ \+(\d+)us (Start|End|Write) (\S+)(?: (\S+))?(?: n=(\d+) lastok=(true|false))?")
-
-
-def _human(key):
-    t = key.split("/")
-    if t[0] == "s":
-        return "block%s.seq%s[%s]" % (t[1], t[2], t[3])
-    sc = "plan" if t[1] == "-1" else "block%s" % t[1]
-    return "%s.%s[%s]" % (sc, _GRP[int(t[2])], t[3])
-
-
-def _load_disturbed(c):
-    short = {_human(k): v for k, v in ((c.get("input", {}).get("spec") or {}).get("short_timeouts_ms") or {}).items()}
-    if not short:
-        return False
-    start, ended = {}, {}
-    for e in (c.get("observed", {}).get("events") or []):
-        m = _EV.match(e)
-        if not m:
-            continue
-        t, kind, path, a4, n, ok = int(m.group(1)), m.group(2), m.group(3), m.group(4), m.group(5), m.group(6)
-        if kind == "Start":
-            start[path], ended[path] = t, None
-        elif kind == "End":
-            ended[path] = a4
-        elif kind == "Write" and a4 == "Running" and n and int(n) >= 1 and ok == "false":
-            if ended.get(path) == "ok" and path in short and path in start and t - start[path] >= short[path] * 1000:
-                return True
-            ended[path] = None
-    return False
-
-
-_orig_harness = ec._harness
-
-
-def _harness(ctx, profile, n, out_name, extra_args=(), seed=None):
-    cases = _orig_harness(ctx, profile, n, out_name, extra_args, seed)
-    if not cases:
-        return cases
-    base = [a for a in extra_args if a == "-poll"]
-    for k, c in enumerate(cases):
-        tries = 0
-        while _load_disturbed(c) and tries < 3:
-            tries += 1
-            got = _orig_harness(ctx, c["input"]["profile"], 1, "rerun_%s_%d.jsonl" % (c["id"], tries),
-                                base + ["-only", str(c["input"]["index"])], seed=c["input"].get("seed"))
-            if not got:
-                break
-            got[0].setdefault("dist", {})["load_reruns"] = tries
-            c = got[0]
-        if _load_disturbed(c):
-            c["dist"]["late_start"] = True          # excluded, counted in excluded_late_start
-            c["dist"]["load_disturbed"] = True
-        cases[k] = c
-    return cases
-
-
-ec._harness = _harness
 
 
 def _codes(m, diag):
@@ -185,13 +117,13 @@ def run(ctx):
     mons = [("mon_persist_diag", "list"), ("mon_reads_diag", "list"), ("mon_explained_diag", "list")]
     res = ec.run_engine_check(
         ctx,
-        profile=[("persist", 200, 4000), ("attempts", 60, 1000), ("mixed", 60, 1500), ("final", 48, 800), ("cont", 32, 500)],
+        profile=[("persist", 200, 10000), ("attempts", 60, 2500), ("mixed", 60, 4000), ("final", 48, 2000), ("cont", 32, 1500)],
         n_quick=0, n_thorough=0,
         extra_header="From Coercion.C08 Require Import MonC08.",
         monitors=mons,
         release_obligation=False,
         harness_args=["-poll"],
-        multi_quick=24, multi_thorough=400,
+        multi_quick=24, multi_thorough=800,
         proj="c08",
         rule_extra="Every trace carries EvRead snapshots of a poller (Workstream.Plan every ~200 us).",
         not_covered=NOT_COVERED,
@@ -241,7 +173,7 @@ def run(ctx):
 def _fatal(ctx):
     """Thorough: a vault that fails the k-th Update* - the process must exit (log.Fatalf) without releasing a waiter and
     without a plugin invocation that depends on the failed write."""
-    n = int(os.environ.get("C08_FATAL_PLANS", "40"))
+    n = int(os.environ.get("C08_FATAL_PLANS", "120"))
     cases = ctx.harness("c08fatal", ["-n", str(n)], out_name="cases_fatal.jsonl", timeout=3000)
     if cases is None:
         return dict(ran=False)
